@@ -94,7 +94,13 @@ def classify(diags, meta):
             m = meta[ln - 1] if 0 < ln <= len(meta) else {}
             f.update(line=ln, item=m.get("item"), part=m.get("part"), label=m.get("label"), origin=m.get("origin"),
                      text=(cs.get("text") or [{}])[0].get("text", "").strip()[:300])
-        if prim:
+        loc = None
+        for sp in spans:
+            if sp is not cs:
+                loc = sp
+        loc = loc or prim
+        if loc:
+            prim = loc
             ln = prim["line_start"]
             m = meta[ln - 1] if 0 < ln <= len(meta) else {}
             f.update(at_line=ln, at_item=m.get("item"), at_part=m.get("part"))
@@ -206,9 +212,13 @@ def check_property(pid, tier, seed):
             gs = groups_of(f)
             part = f.get("part") or ""
             own = set(spec["own_groups"])
-            if part == "lib" or part == "prelude":
+            if part == "prelude" and gs is not None and f.get("at_item") and (f.get("at_part") or "") not in ("prelude", "lib", "gen"):
+                # a trait-level clause of the prelude (group-conditional) fails for an extracted impl method
+                f["obligation"] = name = "%s/trait-contract[%s]" % (f["at_item"], f.get("label"))
+                f["attrib"] = "own" if (gs & own) else "other"
+            elif part == "lib" or part == "prelude":
                 # a lemma of the pure library or a prelude item fails: proof instability or subset limit, not the code
-                if f.get("at_item") and (f.get("at_part") or "") == "body":
+                if f.get("at_item") and (f.get("at_part") or "") not in ("prelude", "lib", "gen"):
                     # precondition of a prelude function violated by extracted code
                     txt = (f.get("text") or "")
                     if "#subset" in txt or "subset" in (f.get("origin") or ""):
